@@ -1,5 +1,5 @@
 (* Entry point evaluated by harness-generated case files (definitions only). *)
-From ZV.Common Require Import Base.
+From ZV.Common Require Import Base Run.
 From ZV.C02 Require Import Model.
 Open Scope N_scope.
 
